@@ -352,6 +352,34 @@ def _transform_specs():
             SPECS[nm] = (make, False)
             GROUPS.setdefault("transform", []).append(nm)
 
+        # all methods in a row on an instance whose parameters were changed
+        # after construction: the first call of the first run must equal the
+        # first call of the second run (no dependence on the call history)
+        def make_seq(d, cls=cls):
+            t = transform.get_transform(cls)
+            vals = {"xmax": 3., "nu": 0.3, "lam": 0.4, "scale": 2.,
+                    "loga": -2., "logb": 0.5, "lower": -1., "logdelta": 1.}
+            for k, v in vals.items():
+                if k in t.params.names or k in t.constants.names:
+                    t[k] = v
+            if cls == "Softmax":
+                x = np.abs(d.ens[:, :3]) + 0.1
+                arg = np.ascontiguousarray(x / (x.sum(axis=1)[:, None] + 1))
+            else:
+                r = (np.argsort(np.argsort(d.obs)) + 0.5) / d.n
+                arg = 0.05 + 0.9 * r[np.argsort(d.sim)]
+
+            def run(x):
+                j1 = t.jacobian(x)
+                f1 = t.forward(x)
+                b1 = t.backward(f1)
+                j2 = t.jacobian(x)
+                return [j1, f1, b1, j2]
+            return [arg], run
+        nm = f"transform.{cls}.all-methods-in-a-row"
+        SPECS[nm] = (make_seq, False)
+        GROUPS.setdefault("transform", []).append(nm)
+
 
 _transform_specs()
 
@@ -803,6 +831,26 @@ def oracle(case):
         raise Violation(f"{name}: two identical calls"
                         f"{' with the same seed' if seeded else ''} return "
                         f"different results")
+    # a result obtained earlier keeps its values when the function is called
+    # again on other data of the same shape
+    import copy
+    try:
+        kept = copy.deepcopy(results[0])
+    except Exception:
+        kept = None
+    if kept is not None:
+        case2 = dict(case, obs=[v + 1.5 for v in case["obs"]],
+                     ens=[[v * 0.5 - 1 for v in r] for r in case["ens"]])
+        args2, fn2 = make(Data(case2))
+        if seeded:
+            np.random.seed(case["seed"] + 1)
+        try:
+            fn2(*args2)
+        except Exception:
+            pass
+        if not same(results[0], kept):
+            raise Violation(f"{name}: a result returned earlier was "
+                            "overwritten by a later call on other data")
     return {"nt": d.plain(), "labels": labels}
 
 
